@@ -453,7 +453,7 @@ func H_C04_string_keys() {
 	L := vChoice("string.length", vBound("N")+1)
 	s := vC04mString(r, "abcdefgh"[:L], true)
 	var order []int
-	for n := 0; n < 3; n++ {
+	for n := 0; n < vBound("K"); n++ {
 		k := vChoice("add", len(vC04mKeyPool)+1)
 		if k == len(vC04mKeyPool) {
 			break
@@ -586,4 +586,363 @@ func H_C04_string_setForeign() {
 		vAssert("setForeign.idx:prototype-untouched", c.sameAsCur(pI, gI) && c.reprOK(sI))
 	}
 	vAssert("setForeign:receiver-untouched", len(recv.self.(*baseObject).values) == 0)
+}
+
+// ---------------------------------------------------------------------
+// H04.6 — mapped arguments object (10.4.4): property "0" is either MAPPED to a parameter slot or an ordinary
+// plain value (an extra argument). Reference: the ordinary algorithm on {value: slot, writable: true, e, c} plus
+// 10.4.4.2 (value written through, mapping removed by an accessor / writable:false), 10.4.4.4 [[Set]] (written
+// through), 10.4.4.5 [[Delete]] (mapping removed). Both key forms ("0" and the Number 0).
+
+type vC04aCase struct {
+	w      *vC04World
+	ext    bool
+	mapped bool
+	e, c   bool
+	slot   Value
+	cur    *vC04Cur
+}
+
+func vC04aSetup() *vC04aCase {
+	k := &vC04aCase{w: vC04NewWorld()}
+	k.ext = vNondetBool("extensible")
+	k.mapped = vChoice("mapped", 2) == 1
+	k.e, k.c = true, true
+	if k.mapped {
+		k.e = vNondetBool("mapped.enumerable")
+		k.c = vNondetBool("mapped.configurable")
+	}
+	i := vNondetInt64("slot.value")
+	vAssume(i >= -(1<<53) && i <= 1<<53)
+	k.slot = valueInt(i)
+	k.cur = &vC04Cur{kind: 1, w: true, e: k.e, c: k.c, value: k.slot}
+	return k
+}
+
+func (k *vC04aCase) build() (*argumentsObject, *Value) {
+	o := &Object{runtime: k.w.r}
+	a := &argumentsObject{}
+	a.extensible = k.ext
+	a.class = "Arguments"
+	o.self = a
+	a.val = o
+	a.length = 1
+	a.init()
+	slot := new(Value)
+	*slot = k.slot
+	if k.mapped {
+		// representation invariant (createArgsMapped, re-asserted below): a mapped record is a writable data record
+		a._put("0", &mappedProperty{valueProperty: valueProperty{writable: true, configurable: k.c, enumerable: k.e}, v: slot})
+	} else {
+		a._put("0", k.slot)
+	}
+	return a, slot
+}
+
+type vC04aObs struct {
+	present, mapped, reprOK, linked bool
+	got                             vC04Got
+	slot                            Value
+}
+
+// observe the property, the slot, the representation, and (behaviourally) whether the two are still linked
+func (k *vC04aCase) observe(a *argumentsObject, slot *Value) (ob vC04aObs) {
+	v := a.getOwnPropStr("0")
+	ob.present = v != nil
+	if ob.present {
+		ob.got = k.w.decode(v)
+	}
+	ob.slot = *slot
+	mp, isMapped := a.values["0"].(*mappedProperty)
+	ob.mapped = isMapped
+	ob.reprOK = true
+	if isMapped {
+		ob.reprOK = mp.writable && !mp.accessor && mp.v == slot && mp.getterFunc == nil && mp.setterFunc == nil
+	}
+	// linkage: a write to the parameter is visible through the object iff mapped
+	*slot = valueInt(1 << 60)
+	after := a.getStr("0", nil)
+	ob.linked = after == valueInt(1<<60)
+	*slot = ob.slot
+	return
+}
+
+func hC04ArgsDefine(family int) {
+	k := vC04aSetup()
+	cur := k.cur
+	d := k.w.descriptor("desc", family, cur)
+	vAssume(d.dG <= 1 && d.dS <= 1)
+	if !k.mapped {
+		// ordinary extra argument: routing only (H04.1 has the table)
+		vAssume(d.dE == d.dC && (family == 1 || d.dW == d.dC))
+	}
+	throw := vNondetBool("throw")
+	sameV := false
+	if d.hasV {
+		sameV = vC04SameValue(d.d.Value, cur.value)
+	}
+	ref := specC04Validate(k.ext, 1, true, cur.e, cur.c, 0, 0, d.dW, d.dE, d.dC, d.hasV, sameV, d.dG, d.dS)
+	// 10.4.4.2 step 6: mapping survives unless the definition succeeded with an accessor or writable:false
+	expMapped := refAnd(k.mapped, refOr(!ref.ok, refAnd(ref.kind == 1, ref.w)))
+	writeThrough := refAnd(refAnd(k.mapped, ref.ok), refAnd(ref.kind == 1, d.hasV))
+
+	run := func(idxForm bool) (out vOutcome, res bool, ob vC04aObs) {
+		a, slot := k.build()
+		out = vCatch(func() {
+			if idxForm {
+				res = a.defineOwnPropertyIdx(valueInt(0), d.d, throw)
+			} else {
+				res = a.defineOwnPropertyStr("0", d.d, throw)
+			}
+		})
+		ob = k.observe(a, slot)
+		return
+	}
+	post := func(ob vC04aObs) bool {
+		got := ob.got
+		if !ob.present {
+			return false
+		}
+		unchanged := refAnd(refAnd(got.kind == 1, got.w), refAnd(refAnd(got.e == cur.e, got.c == cur.c), vC04SameValue(got.value, cur.value)))
+		flags := refAnd(got.kind == ref.kind, refAnd(got.e == ref.e, got.c == ref.c))
+		val := refC04ValueOK(ref.vsel, got.value == _undefined, vC04SameValue(got.value, d.d.Value), vC04SameValue(got.value, cur.value))
+		data := refAnd(got.w == ref.w, val)
+		acc := refAnd(got.g == ref.g, got.s == ref.s)
+		body := refOr(refAnd(ref.kind == 1, data), refAnd(ref.kind == 2, acc))
+		return refOr(refAnd(ref.ok, refAnd(flags, body)), refAnd(!ref.ok, unchanged))
+	}
+	slotOK := func(ob vC04aObs) bool {
+		return refOr(refAnd(writeThrough, vC04SameValue(ob.slot, d.d.Value)), refAnd(!writeThrough, vC04SameValue(ob.slot, k.slot)))
+	}
+	outS, resS, obS := run(false)
+	vAssert("args.define.str:accept==ValidateAndApply", refAnd(outS.panicked == refAnd(!ref.ok, throw), refOr(outS.panicked, resS == ref.ok)))
+	vAssert("args.define.str:only-TypeError", refImp(outS.panicked, outS.kind == "TypeError"))
+	vAssert("args.define.str:resulting-property", post(obS))
+	vAssert("args.define.str:mapping-kept-or-removed-per-10.4.4.2", obS.mapped == expMapped && obS.linked == expMapped)
+	vAssert("args.define.str:parameter-written-through-iff-mapped-and-value-given", slotOK(obS))
+	vAssert("args.define.str:INV-mapped-record-is-writable-data", obS.reprOK)
+	outI, resI, obI := run(true)
+	vAssert("args.define.idx:accept==ValidateAndApply", refAnd(outI.panicked == refAnd(!ref.ok, throw), refOr(outI.panicked, resI == ref.ok)))
+	vAssert("args.define.idx:resulting-property", post(obI))
+	vAssert("args.define.idx:mapping-kept-or-removed-per-10.4.4.2", obI.mapped == expMapped && obI.linked == expMapped)
+	vAssert("args.define.idx:parameter-written-through-iff-mapped-and-value-given", slotOK(obI))
+}
+
+func H_C04_args_define_data()     { hC04ArgsDefine(0) }
+func H_C04_args_define_accessor() { hC04ArgsDefine(1) }
+
+// [[Set]] (receiver = the object), [[Delete]], [[GetOwnProperty]] / [[Get]] on the same states
+func H_C04_args_setDelete() {
+	k := vC04aSetup()
+	cur := k.cur
+	op := vChoice("op", 3) // 0 read, 1 set, 2 delete
+	idxForm := vChoice("key.form", 2) == 1
+	throw := vNondetBool("throw")
+	a, slot := k.build()
+	val := valueInt(7)
+	var res bool
+	var own, get Value
+	out := vCatch(func() {
+		switch op {
+		case 0:
+			if idxForm {
+				own, get, res = a.getOwnPropIdx(valueInt(0)), a.getIdx(valueInt(0), nil), a.hasOwnPropertyIdx(valueInt(0))
+			} else {
+				own, get, res = a.getOwnPropStr("0"), a.getStr("0", nil), a.hasOwnPropertyStr("0")
+			}
+		case 1:
+			if idxForm {
+				res = a.setOwnIdx(valueInt(0), val, throw)
+			} else {
+				res = a.setOwnStr("0", val, throw)
+			}
+		default:
+			if idxForm {
+				res = a.deleteIdx(valueInt(0), throw)
+			} else {
+				res = a.deleteStr("0", throw)
+			}
+		}
+	})
+	ob := k.observe(a, slot)
+	unchanged := ob.present && refAnd(refAnd(ob.got.kind == 1, ob.got.w), refAnd(refAnd(ob.got.e == cur.e, ob.got.c == cur.c), vC04SameValue(ob.got.value, cur.value)))
+	switch op {
+	case 0:
+		g := vC04Got{}
+		if own != nil {
+			g = k.w.decode(own)
+		}
+		vAssert("args.read:getOwnProperty-reports-the-parameter-value", own != nil && refAnd(refAnd(g.kind == 1, g.w), refAnd(refAnd(g.e == cur.e, g.c == cur.c), vC04SameValue(g.value, k.slot))))
+		vAssert("args.read:get==parameter", get != nil && vC04SameValue(get, k.slot) && res && !out.panicked)
+		vAssert("args.read:nothing-changes", unchanged && ob.mapped == k.mapped && ob.linked == k.mapped && vC04SameValue(ob.slot, k.slot))
+	case 1:
+		// a mapped / plain property is a writable data property: [[Set]] succeeds, flags stay, value (and parameter) updated
+		vAssert("args.set:succeeds", res && !out.panicked)
+		vAssert("args.set:value-and-flags", ob.present && refAnd(refAnd(ob.got.kind == 1, ob.got.w), refAnd(refAnd(ob.got.e == cur.e, ob.got.c == cur.c), vC04SameValue(ob.got.value, val))))
+		vAssert("args.set:written-through-iff-mapped", ob.mapped == k.mapped && ob.linked == k.mapped && refImp(k.mapped, vC04SameValue(ob.slot, val)) && refImp(!k.mapped, vC04SameValue(ob.slot, k.slot)))
+	default:
+		expOK := cur.c
+		vAssert("args.delete:result==OrdinaryDelete", refAnd(out.panicked == refAnd(!expOK, throw), refOr(out.panicked, res == expOK)) && refImp(out.panicked, out.kind == "TypeError"))
+		vAssert("args.delete:gone-and-unmapped-iff-configurable", refImp(expOK, !ob.present && !ob.mapped && !ob.linked) && refImp(!expOK, unchanged && ob.mapped == k.mapped && ob.linked == k.mapped))
+		vAssert("args.delete:parameter-untouched", vC04SameValue(ob.slot, k.slot))
+	}
+	vAssert("args:INV-mapped-record-is-writable-data", ob.reprOK)
+}
+
+// ---------------------------------------------------------------------
+// H04.7 — ordinary objects: symbol keys agree with string keys; non-extensible objects keep keys and prototype.
+
+// the same own property under a string key and under a symbol key of two twin objects; the same operation on both
+func H_C04_symbolKeys() {
+	w := vC04NewWorld()
+	ext := vNondetBool("extensible")
+	cur := w.mCurrent(true)
+	op := vChoice("op", 4) // 0 define(data family) 1 define(accessor family) 2 delete 3 read
+	var d *vC04Desc
+	if op <= 1 {
+		d = w.descriptor("desc", op, cur)
+		vAssume(d.dE == d.dC && d.dG <= 1 && d.dS <= 1)
+	} else {
+		d = &vC04Desc{dG: -1, dS: -1}
+	}
+	throw := vNondetBool("throw")
+	sym := &Symbol{desc: asciiString("s")}
+	name := unistring.String("k")
+	rec, _ := cur.repr.(*valueProperty)
+	clone := func() Value {
+		if rec != nil {
+			cp := *rec
+			return &cp
+		}
+		return cur.repr
+	}
+	_, bs := vC04Obj(w.r, ext)
+	_, by := vC04Obj(w.r, ext)
+	if cur.kind != 0 {
+		bs._put(name, clone())
+		by._putSym(sym, clone())
+	}
+	var resS, resY, hasS, hasY bool
+	outS := vCatch(func() {
+		switch op {
+		case 0, 1:
+			resS = bs.defineOwnPropertyStr(name, d.d, throw)
+		case 2:
+			resS = bs.deleteStr(name, throw)
+		default:
+			hasS = bs.hasOwnPropertyStr(name)
+		}
+	})
+	outY := vCatch(func() {
+		switch op {
+		case 0, 1:
+			resY = by.defineOwnPropertySym(sym, d.d, throw)
+		case 2:
+			resY = by.deleteSym(sym, throw)
+		default:
+			hasY = by.hasOwnPropertySym(sym)
+		}
+	})
+	vS := bs.getOwnPropStr(name)
+	vY := by.getOwnPropSym(sym)
+	var gS, gY vC04Got
+	if vS != nil {
+		gS = w.decode(vS)
+	}
+	if vY != nil {
+		gY = w.decode(vY)
+	}
+	// --- agreement between the key kinds ---
+	vAssert("sym:same-outcome-as-string-key", outS.panicked == outY.panicked && outS.kind == outY.kind && resS == resY && hasS == hasY)
+	sameRec := (vS != nil) == (vY != nil)
+	if sameRec && vS != nil {
+		sameRec = refAnd(refAnd(gS.kind == gY.kind, gS.w == gY.w), refAnd(refAnd(gS.e == gY.e, gS.c == gY.c), refAnd(refAnd(gS.g == gY.g, gS.s == gY.s), refOr(gS.kind != 1, vC04SameValue(gS.value, gY.value)))))
+	}
+	vAssert("sym:same-resulting-property-as-string-key", sameRec)
+	// --- and the symbol side against the reference directly ---
+	present := vY != nil
+	unchanged := (cur.kind == 0 && !present)
+	if cur.kind != 0 && present {
+		unchanged = refAnd(refAnd(gY.kind == cur.kind, refAnd(gY.e == cur.e, gY.c == cur.c)),
+			refOr(refAnd(cur.kind == 1, refAnd(gY.w == cur.w, vC04SameValue(gY.value, cur.value))), refAnd(cur.kind == 2, refAnd(gY.g == cur.g, gY.s == cur.s))))
+	}
+	switch op {
+	case 0, 1:
+		sameV := false
+		if d.hasV && cur.kind == 1 {
+			sameV = vC04SameValue(d.d.Value, cur.value)
+		}
+		ref := specC04Validate(ext, cur.kind, cur.w, cur.e, cur.c, cur.g, cur.s, d.dW, d.dE, d.dC, d.hasV, sameV, d.dG, d.dS)
+		vAssert("sym.define:accept==ValidateAndApply", refAnd(outY.panicked == refAnd(!ref.ok, throw), refOr(outY.panicked, resY == ref.ok)))
+		applied := false
+		if present {
+			flags := refAnd(gY.kind == ref.kind, refAnd(gY.e == ref.e, gY.c == ref.c))
+			val := refC04ValueOK(ref.vsel, gY.value == _undefined, vC04SameValue(gY.value, d.d.Value), cur.kind == 1 && vC04SameValue(gY.value, cur.value))
+			body := refOr(refAnd(ref.kind == 1, refAnd(gY.w == ref.w, val)), refAnd(ref.kind == 2, refAnd(gY.g == ref.g, gY.s == ref.s)))
+			applied = refAnd(flags, body)
+		}
+		vAssert("sym.define:resulting-property", refOr(refAnd(ref.ok, applied), refAnd(!ref.ok, unchanged)))
+		vAssert("inv:non-extensible-gains-no-symbol-key", refImp(!ext && cur.kind == 0, !present))
+	case 2:
+		expOK := cur.kind == 0 || cur.c
+		vAssert("sym.delete:result==OrdinaryDelete", refAnd(outY.panicked == refAnd(!expOK, throw), refOr(outY.panicked, resY == expOK)))
+		vAssert("sym.delete:gone-iff-configurable", refImp(expOK, !present) && refImp(!expOK, unchanged))
+		keyListed := false
+		for _, kv := range by.symbols(true, nil) {
+			if kv == Value(sym) {
+				keyListed = true
+			}
+		}
+		vAssert("sym.delete:ownKeys-consistent", keyListed == present)
+	default:
+		vAssert("sym.read:hasOwnProperty", hasY == (cur.kind != 0) && unchanged && !outY.panicked)
+	}
+}
+
+// OrdinarySetPrototypeOf (10.1.2.1) / OrdinaryPreventExtensions (10.1.4.1): a non-extensible object keeps its
+// prototype and gains no key of either kind; cycles are refused
+func H_C04_protoExtensible() {
+	w := vC04NewWorld()
+	ext := vNondetBool("extensible")
+	o, b := vC04Obj(w.r, ext)
+	child, cb := vC04Obj(w.r, true) // child -> o : setting o's prototype to child would close a cycle
+	cb.prototype = o
+	cands := []*Object{nil, w.f1, w.f2, o, child}
+	curP := vChoice("proto.current", 3)
+	newP := vChoice("proto.new", 5)
+	prevent := vChoice("preventExtensions.first", 2) == 1
+	throw := vNondetBool("throw")
+	b.prototype = cands[curP]
+	if prevent {
+		okP := b.preventExtensions(throw)
+		vAssert("preventExtensions:succeeds-and-sticks", okP && !b.isExtensible())
+		ext = false
+	}
+	var res bool
+	out := vCatch(func() { res = b.setProto(cands[newP], throw) })
+	same := newP == curP
+	cycle := newP >= 3
+	expOK := refOr(same, refAnd(ext, !cycle))
+	vAssert("setProto:result==OrdinarySetPrototypeOf", refAnd(out.panicked == refAnd(!expOK, throw), refOr(out.panicked, res == expOK)) && refImp(out.panicked, out.kind == "TypeError"))
+	wantP := cands[curP]
+	if newP < 3 {
+		wantP = cands[newP]
+	}
+	vAssert("setProto:prototype-afterwards", refImp(expOK, b.proto() == wantP) && refImp(!expOK, b.proto() == cands[curP]))
+	vAssert("inv:non-extensible-keeps-its-prototype", refImp(!ext, b.proto() == cands[curP]))
+	vAssert("inv:no-prototype-cycle", b.proto() != o && b.proto() != child)
+	// a non-extensible object gains no key, whichever entry point and key kind
+	sym := &Symbol{desc: asciiString("s")}
+	full := PropertyDescriptor{Value: valueInt(1), Writable: FLAG_TRUE, Enumerable: FLAG_TRUE, Configurable: FLAG_TRUE}
+	b.prototype = nil
+	r1 := b.defineOwnPropertyStr("k", full, false)
+	r2 := b.defineOwnPropertySym(sym, full, false)
+	r3 := b.setOwnStr("k2", valueInt(1), false)
+	r4 := b.setOwnSym(&Symbol{desc: asciiString("t")}, valueInt(1), false)
+	r5 := b.defineOwnPropertyIdx(valueInt(4), full, false)
+	all := r1 && r2 && r3 && r4 && r5
+	none := !r1 && !r2 && !r3 && !r4 && !r5
+	nkeys := len(b.keys(true, nil))
+	vAssert("inv:non-extensible-gains-no-key-any-kind", refImp(!ext, none && nkeys == 0) && refImp(ext, all && nkeys == 5))
+	vAssert("extensible-flag-unchanged-by-setProto", b.isExtensible() == ext)
 }
